@@ -38,6 +38,20 @@ HOSTILE = [
     "(module) @_m { attr (#null) }",
     "(module) @_m { edge -> }",
     "global",
+    "global x",
+    "global filename",
+    "global x?",
+    "global x*",
+    "global x = \"d\"",
+    "global x =",
+    "inherit .x",
+    "attribute a = b =>",
+    "(module) @_m { }\nglobal late",
+    "((escape_sequence) @s\n (#eq? @s \"\\\\\")) ; a lone \\ (not \" or {)\n{ node n\n let u = @s }",
+    "((string) @s (#match? @s \"^\\\\\")) ; \" {\n{ let u = @s }",
+    "(string) @s ; \"unbalanced { quote\n{ let u = @s }",
+    "(string) @s ; \\\" {\n{ let u = @s }",
+    "((identifier) @i (#eq? @i \"a\\\"b\")) ; } \" {\n{ let u = @i }",
     "global x y z",
     "global x* = \"d\"\n(module) @_m { for y in x { print y } }",
     "inherit",
